@@ -357,6 +357,7 @@ func vInstallCodecs() {
 		f := formats[name]
 		f.newCompressor = func(w io.Writer, opts *options) (io.WriteCloser, error) {
 			vAssert(opts.preset >= 0 && opts.preset <= 9, "preset within the table")
+			vSeenPreset = opts.preset
 			return &vCompressor{w: w, tag: tag}, nil
 		}
 		f.newDecompressor = func(r io.Reader, opts *options) (io.Reader, error) {
@@ -453,6 +454,7 @@ func vInstall() {
 	vFS, vOpen, vUser = nil, nil, nil
 	vFaults, vMutated, vExited, vExitCode = 0, 0, false, 0
 	vFiles, vArgs, vCur, vRmFault = nil, nil, 0, false
+	vSeenPreset = -1
 	vFaultIn = [4]bool{}
 	vStdoutB = nil
 	vStdoutF, vStdinF = new(os.File), new(os.File)
@@ -646,6 +648,14 @@ func vConcretizeBool(b bool) bool {
 
 func VH_G_main() {
 	dec, keep, force, stdout, format := vScenario()
+	vFinalFor(dec, keep, force, stdout, format)
+	main()
+	vAssert(vExited, "main ends through os.Exit")
+}
+
+// vFinalFor installs the end-of-run assertions for the given option values.
+func vFinalFor(dec, keep, force, stdout bool, format string) {
+	vForce = force
 	vFinal = func() {
 		anyFail := false
 		for i, f := range vFiles {
@@ -681,6 +691,10 @@ func VH_G_main() {
 			}
 			vAssert(target != f.name, "the output name always differs from the input name")
 			t := vLookup(target)
+			if t != nil {
+				vObs("target:"+target+" len", uint64(len(t.content)))
+				vObs("expected len", uint64(len(out)))
+			}
 			vAssert(t != nil && t.exists && vEqual(t.content, out), "the complete output is in place under its final name")
 			vAssert(t.mode&^(f.mode&0666) == 0, "the output is never more permissive than the input")
 			if keep {
@@ -706,6 +720,90 @@ func VH_G_main() {
 				vAssert(!n.exists || !(vHasSuffix(n.name, ".compress") || vHasSuffix(n.name, ".decompress")), "no temporary file remains after the run")
 			}
 		}
+	}
+}
+
+// ---- G-argv (C15): the real gflag parser on concrete argument vectors ---------------
+//
+// VH_G_main enters options as symbolic values after parsing. Here the real
+// (*options).Init, gflag.NewFlagSet and gflag.Parse run on a menu of argument
+// vectors (bundled short options, options after operands, "--", -F/--format
+// with and without '=', presets, counters), and the run is judged by the same
+// end-of-run assertions against the options the vector means under the
+// documented GNU conventions.
+
+type vArgv struct {
+	argv                     []string
+	dec, keep, force, stdout bool
+	format                   string
+	preset                   int
+	files                    []string
+}
+
+var vMenu = []vArgv{
+	{argv: []string{"-k", "a"}, keep: true, format: "auto", preset: 6, files: []string{"a"}},
+	{argv: []string{"-dk", "a.xz"}, dec: true, keep: true, format: "auto", preset: 6, files: []string{"a.xz"}},
+	{argv: []string{"--", "-k"}, format: "auto", preset: 6, files: []string{"-k"}},
+	{argv: []string{"--", "a", "-k"}, format: "auto", preset: 6, files: []string{"a", "-k"}},
+	{argv: []string{"-k", "--", "-f", "b"}, keep: true, format: "auto", preset: 6, files: []string{"-f", "b"}},
+	{argv: []string{"-F", "lzma", "a"}, format: "lzma", preset: 6, files: []string{"a"}},
+	{argv: []string{"--format=lzma", "a"}, format: "lzma", preset: 6, files: []string{"a"}},
+	{argv: []string{"--format", "alone", "-d", "b.lzma"}, dec: true, format: "alone", preset: 6, files: []string{"b.lzma"}},
+	{argv: []string{"-c", "a"}, stdout: true, format: "auto", preset: 6, files: []string{"a"}},
+	{argv: []string{"-dc", "a.xz"}, dec: true, stdout: true, format: "auto", preset: 6, files: []string{"a.xz"}},
+	{argv: []string{"-9", "a"}, format: "auto", preset: 9, files: []string{"a"}},
+	{argv: []string{"-0", "-k", "a"}, keep: true, format: "auto", preset: 0, files: []string{"a"}},
+	{argv: []string{"-vv", "-q", "a"}, format: "auto", preset: 6, files: []string{"a"}},
+	{argv: []string{"a", "-k"}, keep: true, format: "auto", preset: 6, files: []string{"a"}},
+	{argv: []string{"-f", "--decompress", "a.xz", "b.lzma"}, dec: true, force: true, format: "auto", preset: 6, files: []string{"a.xz", "b.lzma"}},
+	{argv: []string{"--keep", "--force", "--stdout", "a"}, keep: true, force: true, stdout: true, format: "auto", preset: 6, files: []string{"a"}},
+}
+
+// "-z, --compress  force compression" is listed in the usage text
+var vMenuZ = []vArgv{
+	{argv: []string{"-z", "a"}, format: "auto", preset: 6, files: []string{"a"}},
+	{argv: []string{"--compress", "-k", "a"}, keep: true, format: "auto", preset: 6, files: []string{"a"}},
+}
+
+var vSeenPreset = -1
+
+func VH_G_argv()  { vArgvHarness(vMenu, "") }
+func VH_G_argvZ() { vArgvHarness(vMenuZ, " (-z/--compress as documented in the usage text)") }
+
+func vArgvHarness(menu []vArgv, note string) {
+	vInstall()
+	// the real option machinery runs: undo the substitutions of VH_G_main
+	vUnsubst("(*options).Init")
+	vUnsubst("gflag.Parse")
+	vUnsubst("gflag.NArg")
+	vUnsubst("gflag.Args")
+	vUnsubst("gflag.NewFlagSet")
+	vSubst("gflag.(*FlagSet).addLine", func(f *gflag.FlagSet, l interface{}) {}) // usage text only
+	vMaxFault = 0
+	k := vConcretize(int(vNondetU8("argv")) % len(menu))
+	e := menu[k]
+	os.Args = append([]string{"gxz"}, e.argv...)
+	for _, name := range e.files {
+		tag, cond := byte('P'), byte('.')
+		if vHasSuffix(name, ".xz") {
+			tag, cond = 'X', 'v'
+		} else if vHasSuffix(name, ".lzma") {
+			tag, cond = 'L', 'v'
+		}
+		f := vScenFile{name: name, tag: tag, cond: cond, data: []byte("DATA"), mode: 0644}
+		vFiles = append(vFiles, f)
+		vAddFile(f.name, f.tag, f.cond, f.data, f.mode)
+	}
+	vFinalFor(e.dec, e.keep, e.force, e.stdout, e.format)
+	inner := vFinal
+	vFinal = func() {
+		if note != "" {
+			vAssert(vExitCode == 0, "the option is accepted"+note)
+		}
+		if !e.dec {
+			vAssert(vSeenPreset == e.preset, "the preset given on the command line reaches the compressor")
+		}
+		inner()
 	}
 	main()
 	vAssert(vExited, "main ends through os.Exit")
